@@ -29,6 +29,11 @@ type gdTrapEnv struct {
 	obs      []Obligation
 	skipped  map[string]int
 	wrapSeen map[gdAtom]bool
+	scope    []*ssa.Function
+	callers  map[*ssa.Function][]*ssa.Call
+	// reviewed sites: fingerprint → indices into obs; index → the obligation as it would be reported
+	reviewed   map[string][]int
+	unreviewed map[int]Obligation
 }
 
 // gdScope: reachable functions of the four packages + member closures.
@@ -73,10 +78,12 @@ func ruleTrapGuard(c *Ctx) []Obligation {
 	src := gdPayloadFields(c, "homescript/runtime/value", "homescript/interpreter/value")
 	env := &gdTrapEnv{c: c, nm: newGdNamer(c), taint: newGdTaint(src, all), mod: gdComputeAllMod(c.SSA()), skipped: map[string]int{}}
 	env.stacks = gdStackFields(all)
+	env.scope = scope
 	for _, fn := range scope {
 		env.function(fn)
 	}
 	env.capacityInvariants(all)
+	gdReviewUnique(env.obs, env.reviewed, env.unreviewed)
 	var classes []string
 	for k := range env.skipped {
 		classes = append(classes, k)
@@ -129,11 +136,42 @@ func gdStackFields(funcs []*ssa.Function) map[*types.Var]bool {
 }
 
 // gdTrapReviewed: sites of the `len(x)-k` class that guard dominance cannot
-// decide and that were reviewed by hand (DESIGN §7: one named construct each,
-// with its reason; a new site of the kind is reported until reviewed). The
-// operand is not script-controlled in any of them.
+// decide and that were reviewed by hand (DESIGN §7: one construct each, with
+// its reason; a new site of the kind is reported until reviewed). The operand
+// is not script-controlled in any of them. A construct is identified by its
+// rename-stable fingerprint (gdNamer.funcShape / shapeAt: locals stand for
+// their types, unexported functions for their signatures), not by the source
+// text shown in the obligation key; a fingerprint that more than one site of
+// the run has identifies nothing (gdReviewUnique).
 var gdTrapReviewed = map[string]string{
-	"runtime.(Core).unwind|index filtered[len(filtered) - 1]": "run-length grouping loop: the else branch of `prev != frame` is entered in the first iteration only if CallStack[0] equals the zero CallFrame{\"\",0}; frames are pushed with a function name and the VM refuses to run a routine that is not in the program (Run panics with 'non-existent routine' for \"\") — host contract, not reachable from a script. Assumption: no function is named \"\".",
+	// runtime.(Core).unwind|index filtered[len(filtered) - 1]
+	"runtime.(Core).ƒfunc() ([]string, int)|index $[]runtime.CallFrameInfo[len($[]runtime.CallFrameInfo) - 1]": "run-length grouping loop: the else branch of `prev != frame` is entered in the first iteration only if CallStack[0] equals the zero CallFrame{\"\",0}; frames are pushed with a function name and the VM refuses to run a routine that is not in the program (Run panics with 'non-existent routine' for \"\") — host contract, not reachable from a script. Assumption: no function is named \"\".",
+}
+
+// gdJoinKey joins the non-empty parts like gdKeyer.key (without the repeat count).
+func gdJoinKey(parts ...string) string {
+	var ps []string
+	for _, p := range parts {
+		if p != "" {
+			ps = append(ps, p)
+		}
+	}
+	return strings.Join(ps, "|")
+}
+
+// gdReviewUnique: obligations downgraded by a reviewed-site table keep that
+// status only if their fingerprint designates exactly one site of the run.
+func gdReviewUnique(obs []Obligation, byFP map[string][]int, restore map[int]Obligation) {
+	for _, idx := range byFP {
+		if len(idx) < 2 {
+			continue
+		}
+		for _, i := range idx {
+			o := restore[i]
+			o.Detail = fmt.Sprintf("(%d sites share the fingerprint of a hand-reviewed construct: none of them is taken as reviewed) ", len(idx)) + o.Detail
+			obs[i] = o
+		}
+	}
 }
 
 func (env *gdTrapEnv) add(fn *ssa.Function, pos token.Pos, what string, st Status, detail string) {
@@ -141,11 +179,33 @@ func (env *gdTrapEnv) add(fn *ssa.Function, pos token.Pos, what string, st Statu
 		pos = gdPosOfFunc(fn)
 	}
 	key := env.keys.key(env.nm.funcName(fn), env.nm.caseCtx(pos), what)
-	if why, ok := gdTrapReviewed[key]; ok && st != Discharged {
-		env.obs = append(env.obs, Obligation{Key: key, Pos: env.c.Pos(pos), Status: Info, Detail: "reviewed site (not decided by guard dominance): " + why})
-		return
+	ob := Obligation{Key: key, Pos: env.c.Pos(pos), Status: st, Detail: detail, Nontrivial: true}
+	if st != Discharged {
+		// `what` = kind + source text of the site: the fingerprint has the shape instead
+		kind := what
+		if txt := gdShort(env.nm.exprAt(pos), 1<<20); txt != "" {
+			if len(txt) > 12 {
+				txt = txt[:12]
+			}
+			if i := strings.Index(what, txt); i >= 0 {
+				kind = what[:i]
+			}
+		}
+		fp := gdJoinKey(env.nm.funcShape(fn), env.nm.caseCtx(pos), kind+env.nm.shapeAt(pos))
+		if os.Getenv("GD_DEBUG") != "" {
+			fmt.Fprintf(os.Stderr, "fingerprint %s => %s\n", key, fp)
+		}
+		if why, ok := gdTrapReviewed[fp]; ok {
+			if env.reviewed == nil {
+				env.reviewed, env.unreviewed = map[string][]int{}, map[int]Obligation{}
+			}
+			env.reviewed[fp] = append(env.reviewed[fp], len(env.obs))
+			env.unreviewed[len(env.obs)] = ob
+			env.obs = append(env.obs, Obligation{Key: key, Pos: env.c.Pos(pos), Status: Info, Detail: "reviewed site (not decided by guard dominance): " + why})
+			return
+		}
 	}
-	env.obs = append(env.obs, Obligation{Key: key, Pos: env.c.Pos(pos), Status: st, Detail: detail, Nontrivial: true})
+	env.obs = append(env.obs, ob)
 }
 
 func (env *gdTrapEnv) solverAt(in ssa.Instruction) *gdSolver {
@@ -405,7 +465,11 @@ func (env *gdTrapEnv) slice(fn *ssa.Function, x *ssa.Slice) {
 
 // wrapCheck (C18: "accept negative indices counted from the end"): in the two
 // value libraries a script-controlled index must be the result of the wrap
-// idiom — a phi of x and x+len(base) whose second edge is taken under x < 0.
+// idiom: it has exactly two alternatives x and x+len(base), and the second is
+// taken only under x < 0. The alternatives are the edges of a phi (the in-place
+// `if i < 0 { i += len }`), or the values a pure helper returns on its two ways
+// of returning (`wrap(i, len)`, also as one result of a helper that does the
+// bounds test too), evaluated in the helper's frame (gdSolver.resultAlts).
 // One obligation per (function, index variable).
 func (env *gdTrapEnv) wrapCheck(fn *ssa.Function, at ssa.Instruction, pos token.Pos, s *gdSolver, i gdLin, base ssa.Value) {
 	pk := relPkg(fn.Pkg.Pkg.Path())
@@ -441,28 +505,36 @@ func (env *gdTrapEnv) wrapCheck(fn *ssa.Function, at ssa.Instruction, pos token.
 	add := func(st Status, d string) {
 		env.obs = append(env.obs, Obligation{Key: key, Pos: env.c.Pos(pos), Status: st, Detail: d, Nontrivial: true})
 	}
-	phi, ok := atom.v.(*ssa.Phi)
-	if !ok || len(phi.Edges) != 2 {
+	alts := s.resultAlts(*atom, at.Block())
+	if alts == nil {
 		add(Violated, "the index "+s.atomName(s.index[*atom])+" is used as given: a negative index is not counted from the end (no `if i < 0 { i += len }` before the bounds test)")
+		return
+	}
+	form := "phi(x, x+len) with the wrapping edge"
+	if _, isPhi := atom.v.(*ssa.Phi); !isPhi {
+		form = alts[0].ctx.callee.Name() + "(x, …) which returns x / x+len, the wrapping return"
+	}
+	if len(alts) != 2 {
+		add(Violated, fmt.Sprintf("the index comes from %d alternative values, not from the two of the form x / x+len(base) under x < 0", len(alts)))
 		return
 	}
 	n := s.lenOf(base, nil, 0)
 	for k := 0; k < 2; k++ {
-		x, w := phi.Edges[k], phi.Edges[1-k]
+		x, w := alts[k], alts[1-k]
 		// w == x + len(base) ?
-		d := s.linIn(w, atom.ctx, 0).add(s.linIn(x, atom.ctx, 0), -1).add(n, -1)
+		d := s.linIn(w.v, w.ctx, 0).add(s.linIn(x.v, x.ctx, 0), -1).add(n, -1)
 		cls := s.classes()
 		if c := gdCanon(d, cls); len(c.t) != 0 || c.k != 0 {
 			continue
 		}
-		// the wrapping edge is taken only under x < 0
-		pred := phi.Block().Preds[1-k]
+		// the wrapping alternative is taken only under x < 0
 		t := newGdSolver(s.eq)
-		for _, f := range gdDomFacts(pred) {
-			t.addCondIn(f.cond, f.truth, atom.ctx)
+		t.ctxs, t.frames = s.ctxs, s.frames // same interned callee frames
+		for _, f := range w.facts {
+			t.addCondIn(f.cond, f.truth, f.ctx)
 		}
-		if t.proveLE(t.linIn(x, atom.ctx, 0).plus(1)) == gdProved {
-			add(Discharged, "index = phi(x, x+len) with the wrapping edge under x < 0")
+		if t.proveLE(t.linIn(x.v, x.ctx, 0).plus(1)) == gdProved {
+			add(Discharged, "index = "+form+" under x < 0")
 			return
 		}
 	}
@@ -531,22 +603,152 @@ func (env *gdTrapEnv) mapLookup(fn *ssa.Function, lk *ssa.Lookup) {
 			return
 		}
 	}
+	env.mapResult(fn, lk, ptr, okv, env.nm.exprAt(lk.Pos()), 0)
+}
+
+// mapResult: ptr (in fn) is the possibly-nil pointer a map lookup with a
+// script-controlled key yielded, okv its comma-ok flag (or nil); `src` is the
+// source text naming the lookup in fn. One obligation per dereference of ptr in
+// fn. When fn hands ptr on to its callers as a result (the lookup split from
+// its dereference into a helper), the same is done at every static call site
+// with the call's results, the flag being a result that is true only when the
+// pointer result is non-nil.
+func (env *gdTrapEnv) mapResult(fn *ssa.Function, lk *ssa.Lookup, ptr, okv ssa.Value, src string, depth int) {
 	derefs := gdDerefsOf(ptr)
-	if len(derefs) == 0 {
-		return
-	}
-	if !env.taint.tainted(lk.Index) {
+	tainted := env.taint.tainted(lk.Index)
+	if len(derefs) > 0 && !tainted {
 		env.skipped["map lookup then dereference"] += len(derefs)
+	}
+	if !tainted {
 		return
 	}
 	for _, d := range derefs {
-		what := "deref of map result " + gdShort(env.nm.exprAt(lk.Pos()), 60)
+		what := "deref of map result " + gdShort(src, 60)
 		if gdNilGuarded(&gdEq{mod: env.mod}, d, ptr, okv) {
 			env.add(fn, d.Pos(), what, Discharged, "dominated by a non-nil / comma-ok test of the lookup result")
 		} else {
 			env.add(fn, d.Pos(), what, Violated, "the key is a script value; a missing key yields a nil pointer which is dereferenced without a dominating non-nil or comma-ok test (Go: nil pointer dereference)")
 		}
 	}
+	if depth >= 2 || ptr.Referrers() == nil {
+		return
+	}
+	// handed to the callers as result j
+	results := map[int]bool{}
+	for _, r := range *ptr.Referrers() {
+		if ret, ok := r.(*ssa.Return); ok {
+			for j, rv := range ret.Results {
+				if rv == ptr {
+					results[j] = true
+				}
+			}
+		}
+	}
+	for j := range results {
+		// a result m that is true only when result j is non-nil
+		flag := -1
+		if okv != nil {
+			for m := 0; m < fn.Signature.Results().Len(); m++ {
+				if bt, ok := fn.Signature.Results().At(m).Type().Underlying().(*types.Basic); !ok || bt.Kind() != types.Bool {
+					continue
+				}
+				implies := true
+				for _, w := range gdWaysOf(fn) {
+					rm, rj := w.result(m), w.result(j)
+					if cv, isConst := gdBoolConst(rm); isConst && !cv {
+						continue
+					}
+					if rj != nil && gdNonNil(rj, 0) {
+						continue
+					}
+					if rj == ptr && rm == okv {
+						continue
+					}
+					implies = false
+				}
+				if implies {
+					flag = m
+					break
+				}
+			}
+		}
+		for _, call := range env.callersOf(fn) {
+			var ptr2, okv2 ssa.Value
+			if _, isTuple := call.Type().(*types.Tuple); !isTuple {
+				ptr2 = call
+			} else if refs := call.Referrers(); refs != nil {
+				for _, r := range *refs {
+					if ex, ok := r.(*ssa.Extract); ok {
+						if ex.Index == j {
+							ptr2 = ex
+						} else if ex.Index == flag {
+							okv2 = ex
+						}
+					}
+				}
+			}
+			if ptr2 == nil {
+				continue
+			}
+			env.mapResult(call.Parent(), lk, ptr2, okv2, env.nm.exprAt(call.Pos()), depth+1)
+		}
+	}
+}
+
+// callersOf: the static call sites of fn in the functions in scope.
+func (env *gdTrapEnv) callersOf(fn *ssa.Function) []*ssa.Call {
+	if env.callers == nil {
+		env.callers = map[*ssa.Function][]*ssa.Call{}
+		for _, f := range env.scope {
+			for _, b := range f.Blocks {
+				for _, in := range b.Instrs {
+					if call, ok := in.(*ssa.Call); ok {
+						if cal := call.Call.StaticCallee(); cal != nil {
+							env.callers[cal] = append(env.callers[cal], call)
+						}
+					}
+				}
+			}
+		}
+	}
+	return env.callers[fn]
+}
+
+// gdImpliedFacts: the branch decisions (each in its callee frame) that hold
+// when boolean result k of `call` — a call, made in frame outer, of a pure
+// module function — has the value truth: those of the only way of returning
+// compatible with that value, the returned condition itself, and, where one of
+// these is again a boolean result of a pure call, what that implies (two
+// levels).
+func gdImpliedFacts(call *ssa.Call, k int, truth bool, outer *gdCallCtx, depth int) []gdCtxFact {
+	cal := call.Call.StaticCallee()
+	if cal == nil || !gdPureFunc(cal) || k >= cal.Signature.Results().Len() {
+		return nil
+	}
+	if bt, ok := cal.Signature.Results().At(k).Type().Underlying().(*types.Basic); !ok || bt.Kind() != types.Bool {
+		return nil
+	}
+	ways := gdAdmittedWays(cal, []gdResCons{{k: k, truth: truth}})
+	if len(ways) != 1 {
+		return nil
+	}
+	ctx := &gdCallCtx{call: call, callee: cal, outer: outer}
+	facts := ways[0].facts()
+	if rv := ways[0].result(k); rv != nil {
+		if _, isConst := gdBoolConst(rv); !isConst {
+			facts = append(facts, gdNormFact(rv, truth, nil))
+		}
+	}
+	var out []gdCtxFact
+	for _, g := range facts {
+		out = append(out, gdCtxFact{g, ctx})
+		if depth < 2 {
+			if c2, k2 := gdCallResult(g.cond); c2 != nil {
+				out = append(out, gdImpliedFacts(c2, k2, g.truth, ctx, depth+1)...)
+			}
+		}
+	}
+	return out
 }
 
 // gdDerefsOf: instructions that dereference pointer p directly.
@@ -613,7 +815,8 @@ func gdNilCompare(cond ssa.Value, truth bool) (ssa.Value, bool) {
 
 // gdNilGuardedPath: a branch dominating `at` establishes that the value with
 // path q is not nil: the if/switch/&&/|| form (`q != nil`), or the wrapper form
-// (`x.IsSet()` where the pure callee returns `recv.path != nil`).
+// (`x.IsSet()` / `ok := has(x)`: a pure callee whose tested boolean result can
+// only come about on a way of returning on which `recv.path != nil` holds).
 func gdNilGuardedPath(eq *gdEq, at ssa.Instruction, q gdPath) (bool, string) {
 	for _, f := range gdDomFacts(at.Block()) {
 		if w, nonNil := gdNilCompare(f.cond, f.truth); w != nil {
@@ -622,23 +825,17 @@ func gdNilGuardedPath(eq *gdEq, at ssa.Instruction, q gdPath) (bool, string) {
 			}
 			continue
 		}
-		// wrapper form
-		call, ok := f.cond.(*ssa.Call)
-		if !ok {
+		// wrapper form: a boolean result of a pure callee that can have the tested
+		// value on one way of returning only, and a non-nil test holds on that way
+		call, k := gdCallResult(f.cond)
+		if call == nil {
 			continue
 		}
-		cal := call.Call.StaticCallee()
-		if cal == nil || !gdPureFunc(cal) {
-			continue
-		}
-		r := gdSingleReturn(cal)
-		if r == nil || len(r.Results) != 1 {
-			continue
-		}
-		if w, nonNil := gdNilCompare(r.Results[0], f.truth); w != nil && nonNil {
-			ctx := &gdCallCtx{call: call, callee: cal}
-			if eq.samePaths(gdPathIn(w, ctx), q) {
-				return true, "non-nil test through " + cal.Name() + "()"
+		for _, g := range gdImpliedFacts(call, k, f.truth, nil, 0) {
+			if w, nonNil := gdNilCompare(g.cond, g.truth); w != nil && nonNil {
+				if eq.samePaths(gdPathIn(w, g.ctx), q) {
+					return true, "non-nil test through " + call.Call.StaticCallee().Name() + "()"
+				}
 			}
 		}
 	}
